@@ -317,3 +317,61 @@ def check_no_downgrade(ck, prog, config, clause):
               r.violations[0].msg, fn.file, r.violations[0].node.line if r.violations else fn.line,
               path=r.violations[0].path if r.violations else None, config=config)
     return n
+
+
+# ------------------------------------------------------------------ R6.fd-release
+class FdReleaseRule(FactRule):
+    """close(X->f) leaves a number in X->f that the process may hand out again at once (to another context on
+    another thread): the field must be overwritten on every path before the function returns."""
+    name = 'R6.fd-release'
+
+    def __init__(self, prog, fn):
+        FactRule.__init__(self, prog, fn)
+        self.closes = 0
+
+    def on_call(self, ctx, call, ts):
+        if ctx.fn is self.fn and callee_name(call) == 'close' and len(call.a) > 1:
+            a = strip(call.a[1])
+            if a is not None and a.k == 'mem':
+                self.closes += 1
+                ts = ts | frozenset([('closed', pstr(call.a[1], self.subst), call.line)])
+        return ts
+
+    def on_assign(self, ctx, lhs, rhs, op, value, ts):
+        if ctx.fn is self.fn and strip(lhs).k == 'mem':
+            lp = pstr(lhs, self.subst)
+            ts = frozenset(x for x in ts if not (isinstance(x, tuple) and x[0] == 'closed' and x[1] == lp))
+        return ts
+
+    def on_return(self, ctx, node, mask, ts):
+        if ctx.fn is self.fn:
+            for x in ts:
+                if isinstance(x, tuple) and x[0] == 'closed':
+                    self.violate(ctx, 'stale-fd', 'returns with %s still holding the descriptor number closed at line %d: '
+                                 'a later close()/write() through the field hits whatever the process opened under that '
+                                 'number in the meantime (another context\'s file)' % (x[1], x[2]),
+                                 inst=x[1].replace('.', '->').split('->')[-1], node=node)
+        return ts
+
+
+def check_fd_release(ck, prog, config, clause):
+    n = 0
+    for fn in sorted(prog.lib_funcs(), key=lambda f: f.qname):
+        if not calls_of(fn, ('close',)):
+            continue
+        r = FdReleaseRule(prog, fn)
+        run_rule(prog, fn, r)
+        if not r.closes:
+            continue
+        n += r.closes
+        by = {}
+        for v in r.violations:
+            by.setdefault(v.inst, v)
+        if not by:
+            ck.ob(clause, 'R6.fd-release', fn.name, 'close-then-reset', True,
+                  '%d close() of a descriptor field, the field is overwritten before every return' % r.closes,
+                  fn.file, fn.line, config=config)
+        for inst, v in sorted(by.items()):
+            ck.ob(clause, 'R6.fd-release', fn.name, inst, False, v.msg, v.node.file, v.node.line, path=v.path,
+                  config=config)
+    return n
